@@ -875,6 +875,81 @@ static void crash_points (int zeros, int failmode)
   free (nw);
 }
 
+/* `cl <zeros>`: the save hits a file-size limit of L bytes (setrlimit RLIMIT_FSIZE in a forked child): stdio's flush
+ * writes the block PARTIALLY, then fails (SIGXFSZ ignored:  cl <L> ret=<r> <state> tmp=<0|1>) or the process is killed
+ * in the middle of the block (SIGXFSZ default:  ck <L> killed|ret=<r> <state> tmp=<0|1>).  L runs over
+ * 0, 1, n/2, n-1, n, n+1 and the stdio block boundaries 4095, 4096, 4097, 8192 below n (n = length of the new file). */
+#include <sys/resource.h>
+#include <fcntl.h>
+#include <signal.h>
+static void size_limits (int zeros)
+{
+  size_t on = 0, nn = 0;
+  char *old = read_file (SAVE_FILE, &on);
+  fflush (stderr);
+  pid_t pid = fork ();
+  if (pid == 0)
+    {
+      call_so (zeros);
+      _exit (0);
+    }
+  waitpid (pid, 0, 0);
+  char *nw = read_file (SAVE_FILE, &nn);
+  long cand[10] = { 0, 1, (long) nn / 2, (long) nn - 1, (long) nn, (long) nn + 1, 4095, 4096, 4097, 8192 };
+  vh_out ("cl n=%ld", (long) nn);
+  for (int i = 0; i < 10 && nw; i++)
+    {
+      long L = cand[i];
+      int dup = 0;
+      for (int j = 0; j < i; j++)
+        dup |= cand[j] == L;
+      if (dup || L < 0 || (i >= 6 && L >= (long) nn))
+        continue;
+      for (int kill = 0; kill < 2; kill++)
+        {
+          int pfd[2], status = 0, ret = -2;
+          reset_files (old, on);
+          if (pipe (pfd))
+            break;
+          fflush (stderr);
+          pid = fork ();
+          if (pid == 0)
+            {
+              struct rlimit rl;
+              /* the trace goes to a regular file through stderr: keep the limit (and SIGXFSZ) away from it */
+              int nul = open ("/dev/null", O_WRONLY);
+              if (nul >= 0)
+                dup2 (nul, 2);
+              rl.rlim_cur = rl.rlim_max = (rlim_t) L;
+              signal (SIGXFSZ, kill ? SIG_DFL : SIG_IGN);
+              if (setrlimit (RLIMIT_FSIZE, &rl))
+                _exit (4);
+              int r = call_so (zeros);
+              if (write (pfd[1], &r, sizeof r) != sizeof r)
+                _exit (3);
+              _exit (0);
+            }
+          close (pfd[1]);
+          if (read (pfd[0], &ret, sizeof ret) != sizeof ret)
+            ret = -2;
+          close (pfd[0]);
+          waitpid (pid, &status, 0);
+          struct stat st;
+          int tmp = stat (SAVE_TMP, &st) == 0;
+          const char *cls = classify (old, on, nw, nn);
+          if (WIFSIGNALED (status) && WTERMSIG (status) == SIGXFSZ)
+            vh_out ("%s %ld killed %s tmp=%d", kill ? "ck" : "cl", L, cls, tmp);
+          else if (WIFSIGNALED (status) || (WIFEXITED (status) && WEXITSTATUS (status)))
+            vh_out ("%s %ld childcrash", kill ? "ck" : "cl", L);
+          else
+            vh_out ("%s %ld ret=%d %s tmp=%d", kill ? "ck" : "cl", L, ret, cls, tmp);
+        }
+    }
+  reset_files (old, on);
+  free (old);
+  free (nw);
+}
+
 static int c16_cmd (char *line)
 {
   static char *copy = 0;
@@ -962,6 +1037,20 @@ static int c16_cmd (char *line)
         vh_out ("seterr");
       return 1;
     }
+  if (!strcmp (tok[0], "poison") && n == 2)
+    {
+      /* poison <d>: the state an LPC error raised in the middle of an earlier save / restore leaves behind: the
+         container counter save_svalue_depth stays at <d> (the size table is whatever it was: NULL or allocated).
+         Every entry point must start from it as from a fresh driver. */
+      save_svalue_depth = atoi (tok[1]);
+      return 1;
+    }
+  if (!strcmp (tok[0], "cl") && n == 2)
+    {
+      ensure_obj ();
+      size_limits (atoi (tok[1]));
+      return 1;
+    }
   if (!strcmp (tok[0], "mkd") && n == 2)
     {
       /* mkd <hex path>: mkdir -p below the mudlib (for long save paths) */
@@ -1035,8 +1124,9 @@ static int c16_cmd (char *line)
         vh_out ("seterr");
       return 1;
     }
-  if (!strcmp (tok[0], "son") && n == 4)
+  if ((!strcmp (tok[0], "son") || !strcmp (tok[0], "sond")) && n == 4)
     {
+      /* sond: the same where <path> is an existing DIRECTORY (made by `mkd`): rename(tmp, path) fails for real */
       /* son <hex file name given to save_object> <zeros> <hex path (relative to the mudlib) the save must create> */
       static char name[1200], path[1200];
       size_t ln = strlen (tok[1]) / 2, lp = strlen (tok[3]) / 2;
@@ -1073,6 +1163,8 @@ static int c16_cmd (char *line)
         vh_out ("so %d made=%d tmp=%s left=%d", r, stat (path, &st) == 0, hex, k && stat (ip_lastpath, &st) == 0);
       }
       ru (path);
+      if (tok[0][3] == 'd')
+        rmdir (path);
       return 1;
     }
   if (!strcmp (tok[0], "so") && n == 2)
